@@ -81,6 +81,7 @@ def run_history(case, backend):
             snap = lambda: {k: (None if v is None else bytes(v)) for k, v in world.snapshot().items()}
         else:
             scratch = tempfile.mkdtemp(prefix="c18_", dir=SCRATCH_ROOT)
+            world.digest_masks = [scratch]
             fs_populate(scratch, c05.TREE)
             users = [aioftp.User(base_path=scratch), aioftp.User("u1", "pw1", base_path=scratch, home_path="/d"), aioftp.User("u2", base_path=scratch)]
             factory = aioftp.PathIO if backend == "pathio" else aioftp.AsyncPathIO
